@@ -2,29 +2,38 @@
 # Full self-test: every claimed property passes on the unchanged tree, and
 # every patch of the must-fail corpus (mutants/<P>/*.patch, seeded/<id>/patch.diff
 # with its property list in seeded/<id>/props) is caught by its property.
+# The corpus runs four patches at a time (REGRESS_JOBS).
 cd /verif
 props=$(python3 -c "import json;print(' '.join(c['property_id'] for c in json.load(open('MANIFEST.json'))['checks']))")
 rc=0
 echo "== unchanged tree"
+[ -n "${REGRESS_SKIP_TREE:-}" ] && props=""
 for p in $props; do
   out=$(./check $p quick 2>&1); code=$?
   echo "$p exit=$code $(echo "$out" | tail -1)"
   [ $code -ne 0 ] && { echo "$out" | grep -E 'VIOLATION|TOOL-ERROR' | head -5; rc=1; }
 done
 echo "== must-fail corpus"
-run() { # patch props...
-  f=$1; shift
-  r=$(tools/mutcheck.sh "$f" "$@" 2>&1)
-  if echo "$r" | grep -q '^CAUGHT'; then echo "ok   $f [$(echo "$r" | grep -c '^CAUGHT') caught]"; else echo "MISS $f: $(echo "$r" | head -2 | cut -c1-200)"; rc=1; fi
-}
+list=$(mktemp)
+# REGRESS_ONLY="C01 C17": only the patches filed under / caught by these properties
+want() { [ -z "${REGRESS_ONLY:-}" ] && return 0; for w in $REGRESS_ONLY; do for q in "$@"; do [ "$w" = "$q" ] && return 0; done; done; return 1; }
 for d in mutants/*/; do
   p=$(basename $d)
-  for f in $d*.patch; do [ -f "$f" ] && run "$f" $p; done
+  want $p || continue
+  for f in $d*.patch; do [ -f "$f" ] && echo "$f $p" >> $list; done
 done
 for d in seeded/*/; do
   [ -f "$d/patch.diff" ] || continue
   if [ -f "$d/props" ]; then
-    if [ -n "$(cat "$d/props" | tr -d ' \n')" ]; then run "$d/patch.diff" $(cat "$d/props"); else echo "open $d (recorded as not yet caught, DESIGN §16)"; fi
+    want $(cat "$d/props") || continue
+    if [ -n "$(cat "$d/props" | tr -d ' \n')" ]; then echo "${d}patch.diff $(cat "$d/props" | tr '\n' ' ')" >> $list; else echo "open $d (recorded as not yet caught, DESIGN §16)"; fi
   fi
 done
+res=$(mktemp)
+cat $list | xargs -P ${REGRESS_JOBS:-4} -L 1 sh -c '
+  f=$0; r=$(tools/mutcheck.sh "$f" "$@" 2>&1)
+  if echo "$r" | grep -q "^CAUGHT"; then echo "ok   $f [$(echo "$r" | grep -c "^CAUGHT") caught]"; else echo "MISS $f: $(echo "$r" | head -2 | cut -c1-200)"; fi
+' | tee $res
+grep -q '^MISS' $res && rc=1
+rm -f $list $res
 exit $rc
